@@ -1460,4 +1460,283 @@ def boxedCheckedMul (na nb : Nat) (a b : List Sec) : L (List Sec × Sec) := do
   let z ← boxedIsZero nb (p.drop na)
   pure (p.take na, z)
 
+
+/-! ## safegcd (src/modular/safegcd.rs): `UnsatInt` arithmetic (62-bit limbs in `u64`, two's complement), the full
+`jump`, `fg`, `de`, the `divsteps` outer loop, `SafeGcdInverter::{inv, gcd}`.  `i64` values are words in two's
+complement; the `i128` of `jump` is a pair (lo, hi). -/
+
+/-- `UnsatInt::MASK` = 2^62 − 1 -/
+def M62 : Sec := ofNat (2 ^ 62 - 1)
+/-- `safegcd_nlimbs!(64·n)` = `(64·n + 64).div_ceil(62)` -/
+def unsatLimbs (n : Nat) : Nat := (64 * n + 64 + 61) / 62
+
+/-- `UnsatInt::add`: `sum = a[i] + b[i] + carry; ret[i] = sum & MASK; carry = sum >> 62` -/
+def unsatAdd (n : Nat) (a b : List Sec) : L (List Sec) :=
+  (forN n (fun i st => do
+    pubIndex i
+    pure (st.1 ++ [and (add (add (limb a i) (limb b i)) st.2) M62], shrPub (add (add (limb a i) (limb b i)) st.2) 62))
+    ([], zero)) >>= fun st => pure st.1
+
+/-- the loop of `UnsatInt::mul`: `sum = carry + (a[i] ^ mask) * other` in `u128` -/
+def unsatMulLoop (n : Nat) (a : List Sec) (o mask c0 : Sec) : L (List Sec) :=
+  (forN n (fun i st => do
+    pubIndex i
+    pure (st.1 ++ [and (Sec.mac st.2 (xor (limb a i) mask) o zero).1 M62],
+          or (shrPub (Sec.mac st.2 (xor (limb a i) mask) o zero).1 62) (shlPub (Sec.mac st.2 (xor (limb a i) mask) o zero).2 2)))
+    ([], c0)) >>= fun st => pure st.1
+
+/-- `UnsatInt::mul(other: i64)` AS WRITTEN: `if other < 0 { (-other, -other as u64, MASK) } else { (other, 0, 0) }` is a
+BRANCH on the sign of the (secret-derived) multiplier -/
+def unsatMul (n : Nat) (a : List Sec) (other : Sec) : L (List Sec) := do
+  let ng ← branchOn (maskMsb other)
+  if ng then unsatMulLoop n a (neg other) M62 (neg other) else unsatMulLoop n a other zero zero
+
+/-- `UnsatInt::neg` -/
+def unsatNeg (n : Nat) (a : List Sec) : L (List Sec) :=
+  (forN n (fun i st => do
+    pubIndex i
+    pure (st.1 ++ [and (add (xor (limb a i) M62) st.2) M62], shrPub (add (xor (limb a i) M62) st.2) 62))
+    ([], one)) >>= fun st => pure st.1
+
+/-- `UnsatInt::is_negative`: `from_u64_gt(self.0[LIMBS - 1], MASK >> 1)` -/
+def unsatIsNegative (n : Nat) (a : List Sec) : L Sec := do
+  pubIndex (n - 1)
+  pure (maskLt (ofNat (2 ^ 61 - 1)) (limb a (n - 1)))
+
+/-- `UnsatInt::shr`: drop the lowest limb, sign-fill the top one -/
+def unsatShr (n : Nat) (a : List Sec) : L (List Sec) := do
+  let ng ← unsatIsNegative n a
+  forN (n - 1) (fun i r => do
+    pubIndex i; pubIndex (i + 1)
+    pure (r.set i (limb a (i + 1)))) ((zeros n).set (n - 1) (select zero M62 ng))
+
+/-- `UnsatInt::eq` -/
+def unsatEq (n : Nat) (a b : List Sec) : L Sec :=
+  forN n (fun i acc => do pubIndex i; pure (and acc (maskEq (limb a i) (limb b i)))) Sec.max
+
+/-- `UnsatInt::select` -/
+def unsatSelect (n : Nat) (a b : List Sec) (c : Sec) : L (List Sec) :=
+  forN n (fun i r => do pubIndex i; pure (r ++ [select (limb a i) (limb b i) c])) []
+
+/-- `UnsatInt::leading_zeros` (from the top limb; `l.leading_zeros() - 2`) and `bits` -/
+def unsatBits (n : Nat) (a : List Sec) : L Sec :=
+  (forDown n (fun i st => do
+    pubIndex i
+    pure (add st.1 (and st.2 (sub (lz (limb a i)) (ofNat 2))), and st.2 (not (maskNonzero (limb a i))))) (zero, Sec.max))
+    >>= fun st => pure (sub (ofNat (62 * n)) st.1)
+
+/-- the positions `bits` visited by the `while bits < total` loop of `impl_limb_convert!` (a PUBLIC schedule) -/
+def convSchedule (ib ob total : Nat) : Nat → Nat → List Nat
+  | 0, _ => []
+  | fuel + 1, bits => if bits < total then bits :: convSchedule ib ob total fuel (bits + min (ib - bits % ib) (ob - bits % ob)) else []
+
+/-- `impl_limb_convert!(_, ib, input[il], _, ob, output[ol])`: every shift amount and index is a function of the two
+limb counts; then the masking loop -/
+def limbConvert (ib ob il ol : Nat) (inp : List Sec) : L (List Sec) := do
+  let sched := convSchedule ib ob (min (il * ib) (ol * ob)) (min (il * ib) (ol * ob) + 1) 0
+  let out ← forN sched.length (fun k out => do
+    pubIndex (sched.getD k 0 / ob); pubIndex (sched.getD k 0 / ib)
+    pure (out.set (sched.getD k 0 / ob)
+      (or (limb out (sched.getD k 0 / ob)) (shlPub (shrPub (limb inp (sched.getD k 0 / ib)) (sched.getD k 0 % ib)) (sched.getD k 0 % ob)))))
+    (zeros ol)
+  forDown (min (il * ib) (ol * ob) / ob + (if min (il * ib) (ol * ob) % ob > 0 then 1 else 0)) (fun i out => do
+    pubIndex i
+    pure (out.set i (and (limb out i) (ofNat (2 ^ ob - 1))))) out
+
+/-- `UnsatInt::from_uint` (n 64-bit words → u 62-bit limbs), `UnsatInt::to_uint` -/
+def unsatFromUint (n u : Nat) (a : List Sec) : L (List Sec) := limbConvert 64 62 n u a
+def unsatToUint (u n : Nat) (a : List Sec) : L (List Sec) := limbConvert 62 64 u n a
+
+/-- `inv_mod2_62(value)`: straight-line word arithmetic on the lowest word -/
+def invMod262 (v : Sec) : L Sec := do
+  let x0 := xor (mul v (ofNat 3)) (ofNat 2)
+  let y0 := sub one (mul x0 v)
+  let x1 := mul x0 (add y0 one); let y1 := mul y0 y0
+  let x2 := mul x1 (add y1 one); let y2 := mul y1 y1
+  let x3 := mul x2 (add y2 one); let y3 := mul y2 y2
+  pure (and (mul x3 (add y3 one)) M62)
+
+/-- `iterations(f_bits, g_bits)`: max by mask-select, `(49·d + addend) / 17` with a constant divisor -/
+def iterations (fb gb : Sec) : Sec :=
+  divConst (add (mul (ofNat 49) (select fb gb (maskLt fb gb)))
+                (select (ofNat 80) (ofNat 57) (maskLt (select fb gb (maskLt fb gb)) (ofNat 46)))) 17
+
+/-- signed `a > b` on `i64` as a mask (flip the sign bits, compare unsigned) -/
+def maskGtS (a b : Sec) : Sec := maskLt (xor b (ofNat HALF)) (xor a (ofNat HALF))
+
+/-- the local `const fn min(a: i64, b: i64) -> i64 { if a > b { b } else { a } }` of `jump`: A BRANCH -/
+def minBranch (a b : Sec) : L Sec := do
+  let gt ← branchOn (maskGtS a b)
+  pure (if gt then b else a)
+
+/-- state of `jump`: steps (public once `zeros` is), delta, f (i64), g (i128 as lo, hi), t (four i64) -/
+structure JumpSt where
+  steps : Nat
+  delta : Sec
+  f : Sec
+  glo : Sec
+  ghi : Sec
+  t00 : Sec
+  t01 : Sec
+  t10 : Sec
+  t11 : Sec
+  done : Bool
+
+/-- one trip of the `loop` of `jump` (src/modular/safegcd.rs:205-226), complete: `zeros = min(steps, g.trailing_zeros())`
+becomes PUBLIC (it is the shift amount and steers the exit), `delta > 0` and the two `min`s of the mask width are branches -/
+def jumpTrip (s : JumpSt) : L (Option JumpSt) := do
+  if s.done then pure none else do
+  let tzs ← declassify (select (add (ofNat 64) (tz s.ghi)) (tz s.glo) (maskNonzero s.glo))
+  let zs := min s.steps tzs
+  let steps := s.steps - zs
+  let delta := add s.delta (ofNat zs)
+  let glo := or (shrPub s.glo zs) (shlPub s.ghi (64 - zs))      -- `g >> zeros` on the i128 (zs ≤ 62)
+  let ghi := sarPub s.ghi zs
+  let t00 := shlPub s.t00 zs
+  let t01 := shlPub s.t01 zs
+  pubCond (decide (steps = 0))
+  if steps = 0 then pure (some ⟨0, delta, s.f, glo, ghi, t00, t01, s.t10, s.t11, true⟩) else do      -- `break`
+    let pos ← branchOn (and (not (maskMsb delta)) (maskNonzero delta))   -- `if delta > 0`
+    -- (delta, f, g) = (-delta, g as i64, -f as i128); (t[0], t[1]) = (t[1], [-t[0][0], -t[0][1]])
+    let d1 := if pos then neg delta else delta
+    let f1 := if pos then glo else s.f
+    let g1lo := if pos then neg s.f else glo
+    let g1hi := if pos then maskMsb (neg s.f) else ghi
+    let u00 := if pos then s.t10 else t00
+    let u01 := if pos then s.t11 else t01
+    let u10 := if pos then neg t00 else s.t10
+    let u11 := if pos then neg t01 else s.t11
+    -- mask = (1 << min(min(steps, 1 - delta), 5)) - 1
+    let m1 ← minBranch (ofNat steps) (sub one d1)
+    let m2 ← minBranch m1 (ofNat 5)
+    let w := and (mul g1lo (xor (mul f1 (ofNat 3)) (ofNat 28))) (sub (shl one m2) one)
+    -- g += w as i128 * f as i128   (w ≥ 0; signed 64×64→128 product, then 128-bit add)
+    let p := Sec.mulWide w f1
+    let phi := sub p.2 (and (maskMsb f1) w)
+    let s0 := Sec.adc g1lo p.1 zero
+    let s1 := Sec.adc g1hi phi s0.2
+    pure (some ⟨steps, d1, f1, s0.1, s1.1, u00, u01, add (mul u00 w) u10, add (mul u01 w) u11, false⟩)
+
+/-- `jump(f, g, delta) -> (delta, matrix)`: at most 63 trips -/
+def jumpFull (f0 g0 delta : Sec) : L (Sec × Sec × Sec × Sec × Sec) :=
+  (whileFuel 65 jumpTrip ⟨62, delta, f0, g0, zero, one, zero, zero, one, false⟩)
+  >>= fun s => pure (s.delta, s.t00, s.t01, s.t10, s.t11)
+
+
+/-- `f.mul(t0).add(&g.mul(t1))` -/
+def unsatLin2 (n : Nat) (f g : List Sec) (t0 t1 : Sec) : L (List Sec) := do
+  let a ← unsatMul n f t0
+  let b ← unsatMul n g t1
+  unsatAdd n a b
+
+/-- `fg(f, g, t)`: both rows, then the 62-bit arithmetic shift.  Constant-time GIVEN the matrix, except for the sign
+test inside `UnsatInt::mul` -/
+def fgStep (n : Nat) (f g : List Sec) (t00 t01 t10 t11 : Sec) : L (List Sec × List Sec) := do
+  let r0 ← unsatLin2 n f g t00 t01
+  let r1 ← unsatLin2 n f g t10 t11
+  let s0 ← unsatShr n r0
+  let s1 ← unsatShr n r1
+  pure (s0, s1)
+
+/-- the word part of `de`: `md`, `me` (i64) from the matrix, the signs and the lowest limbs of `d`, `e` -/
+def deMd (t0 t1 dn en dl el inverse : Sec) : Sec :=
+  sub (add (mul t0 (and dn one)) (mul t1 (and en one)))
+      (and (add (mul inverse (and (add (mul t0 dl) (mul t1 el)) M62)) (add (mul t0 (and dn one)) (mul t1 (and en one)))) M62)
+
+/-- `d.mul(t0).add(&e.mul(t1)).add(&modulus.mul(md))` -/
+def unsatLin3 (n : Nat) (d e m : List Sec) (t0 t1 md : Sec) : L (List Sec) := do
+  let a ← unsatLin2 n d e t0 t1
+  let c ← unsatMul n m md
+  unsatAdd n a c
+
+/-- `de(modulus, inverse, t, d, e)` -/
+def deStep (n : Nat) (modulus : List Sec) (inverse : Sec) (t00 t01 t10 t11 : Sec) (d e : List Sec) : L (List Sec × List Sec) := do
+  let dn ← unsatIsNegative n d
+  let en ← unsatIsNegative n e
+  pubIndex 0
+  let cd ← unsatLin3 n d e modulus t00 t01 (deMd t00 t01 dn en (limb d 0) (limb e 0) inverse)
+  let ce ← unsatLin3 n d e modulus t10 t11 (deMd t10 t11 dn en (limb d 0) (limb e 0) inverse)
+  let s0 ← unsatShr n cd
+  let s1 ← unsatShr n ce
+  pure (s0, s1)
+
+/-- one trip of the outer loop of `divsteps`; state = (delta, f, g, d, e) -/
+def divstepsTrip (n : Nat) (f0 : List Sec) (inverse : Sec) (st : Sec × List Sec × List Sec × List Sec × List Sec) :
+    L (Sec × List Sec × List Sec × List Sec × List Sec) := do
+  pubIndex 0
+  let j ← jumpFull (limb st.2.1 0) (limb st.2.2.1 0) st.1
+  let r ← fgStep n st.2.1 st.2.2.1 j.2.1 j.2.2.1 j.2.2.2.1 j.2.2.2.2
+  let q ← deStep n f0 inverse j.2.1 j.2.2.1 j.2.2.2.1 j.2.2.2.2 st.2.2.2.1 st.2.2.2.2
+  pure (j.1, r.1, r.2, q.1, q.2)
+
+/-- `divsteps(e, f_0, g, inverse) -> (d, f)`: the trip count `iterations(f_0.bits(), g.bits())` is computed from the
+bit lengths of BOTH operands and then used as a loop bound — it becomes public (`declassify`) -/
+def divsteps (n : Nat) (e f0 g : List Sec) (inverse : Sec) : L (List Sec × List Sec) := do
+  let fb ← unsatBits n f0
+  let gb ← unsatBits n g
+  let m ← declassify (iterations fb gb)
+  let st ← forN m (fun _ st => divstepsTrip n f0 inverse st) (one, f0, g, zeros n, e)
+  pure (st.2.2.2.1, st.2.1)
+
+/-- `SafeGcdInverter::norm(value, negate)` -/
+def unsatNorm (n : Nat) (modulus value : List Sec) (negate : Sec) : L (List Sec) := do
+  let n1 ← unsatIsNegative n value
+  let a1 ← unsatAdd n value modulus
+  let v1 ← unsatSelect n value a1 n1
+  let ng ← unsatNeg n v1
+  let v2 ← unsatSelect n v1 ng negate
+  let n2 ← unsatIsNegative n v2
+  let a2 ← unsatAdd n v2 modulus
+  unsatSelect n v2 a2 n2
+
+/-- `UnsatInt::ONE`, `UnsatInt::MINUS_ONE` -/
+def unsatOne (u : Nat) : List Sec := (zeros u).set 0 one
+def unsatMinusOne (u : Nat) : List Sec := List.replicate u M62
+
+/-- `Uint::inv_odd_mod(modulus)` = `SafeGcdInverter::new(modulus, ONE).inv(value)`; `n` 64-bit limbs; (value, is_some) -/
+def safegcdInv (n : Nat) (modulus value : List Sec) : L (List Sec × Sec) := do
+  let u := unsatLimbs n
+  let m ← unsatFromUint n u modulus
+  let adj ← unsatFromUint n u (uone n)
+  pubIndex 0
+  let inverse ← invMod262 (limb modulus 0)
+  let g ← unsatFromUint n u value
+  let df ← divsteps u adj m g inverse
+  let antiunit ← unsatEq u df.2 (unsatMinusOne u)
+  let ret ← unsatNorm u m df.1 antiunit
+  let isOne ← unsatEq u df.2 (unsatOne u)
+  let r ← unsatToUint u n ret
+  pure (r, or isOne antiunit)
+
+/-- `SafeGcdInverter::gcd(f, g)` (`Odd<Uint>::gcd`): `f` odd -/
+def safegcdGcd (n : Nat) (f g : List Sec) : L (List Sec) := do
+  let u := unsatLimbs n
+  pubIndex 0
+  let inverse ← invMod262 (limb f 0)
+  let fu ← unsatFromUint n u f
+  let gu ← unsatFromUint n u g
+  let df ← divsteps u (unsatOne u) fu gu inverse
+  let ng ← unsatIsNegative u df.2
+  let nf ← unsatNeg u df.2
+  let fa ← unsatSelect u df.2 nf ng
+  unsatToUint u n fa
+
+/-- `Uint::gcd(rhs)`: strip the common power of two (`trailing_zeros`, secret-shift ladders, mask-selects), then the
+odd-operand safegcd, then shift back -/
+def ugcd (n : Nat) (a b : List Sec) : L (List Sec) := do
+  let k1 ← trailingZeros n a
+  let k2 ← trailingZeros n b
+  let k := select k1 k2 (maskLt k2 k1)
+  let s1o ← overflowingShr n a k
+  let s1 ← uselect n (zeros n) s1o.1 s1o.2
+  let s2o ← overflowingShr n b k
+  let s2 ← uselect n (zeros n) s2o.1 s2o.2
+  pubIndex 0
+  let odd2 := maskLsb (and (limb s2 0) one)
+  let f ← uselect n s1 s2 (not odd2)
+  let g ← uselect n s1 s2 odd2
+  let r ← safegcdGcd n f g
+  let sh ← overflowingShl n r k
+  uselect n (zeros n) sh.1 sh.2
+
 end CB.Leak
